@@ -55,13 +55,32 @@ def canonTag : String → String
   | "ll" => "i64" | "ull" => "u64"
   | s => s
 
-def evalLine (fn0 tag0 : String) (a : Array Int) : String :=
+/-- the model's early-initialisation table: the twelve calls the harness makes during static initialisation -/
+def earlyVal (k : Int) : String :=
+  match k with
+  | 0 => (sinAngleAprox 30).show | 1 => (cosAngleAprox 60).show | 2 => (cosAngleAprox 0).show
+  | 3 => (sinAngleAprox 90).show | 4 => (sqrtAprox 262144).show | 5 => (atanIndexAprox 65536).show
+  | 6 => (tanTab 64).show | 7 => (squareRootTab 255).show | 8 => (sinAngleTab 45).show
+  | 9 => (cosAngleTab 45).show | 10 => (hypotAprox 196608 262144).show | 11 => (atanAprox (-65536)).show
+  | _ => "bad-op"
+
+partial def evalLine (fn0 tag0 : String) (a : Array Int) : String :=
+  -- `re_<op> first-operands second-operands` : the library is called twice on the same objects; the second result counts
+  if fn0.startsWith "re_" then
+    evalLine (fn0.drop 3).toString tag0 (a.extract (a.size / 2) a.size)
+  else
   let fn := canon fn0
   let tag := canonTag tag0
   let a0 := a.getD 0 0
   let a1 := a.getD 1 0
   let n := a.size
   match fn, n with
+  | "addeq_self", 1 => (add a0 a0).show
+  | "subeq_self", 1 => (sub a0 a0).show
+  | "muleq_self", 1 => (mul a0 a0).show
+  | "diveq_self", 1 => (FixedMath.div a0 a0).show
+  | "early", 1 => earlyVal a0
+  | "late", 1 => earlyVal a0
   | "neg", 1 => (neg a0).show
   | "abs", 1 => (FixedMath.abs a0).show
   | "isnan", 1 => showB (isnan a0)
